@@ -392,6 +392,8 @@ func typeDefinitionConverter(t dsl.TypeDefinition, contextNamespace string) stri
 	}
 }
 
+// namedType is the alias whose own type t is, if any: a union that is directly the type of an
+// alias is generated under the alias' name. It does not apply to types nested inside t.
 func typeConverter(t dsl.Type, contextNamespace string, namedType *dsl.NamedType) string {
 	switch t := t.(type) {
 	case nil:
@@ -401,10 +403,10 @@ func typeConverter(t dsl.Type, contextNamespace string, namedType *dsl.NamedType
 	case *dsl.GeneralizedType:
 		getScalarConverter := func() string {
 			if t.Cases.IsSingle() {
-				return typeConverter(t.Cases[0].Type, contextNamespace, namedType)
+				return typeConverter(t.Cases[0].Type, contextNamespace, nil)
 			}
 			if t.Cases.IsOptional() {
-				return fmt.Sprintf("_ndjson.OptionalConverter(%s)", typeConverter(t.Cases[1].Type, contextNamespace, namedType))
+				return fmt.Sprintf("_ndjson.OptionalConverter(%s)", typeConverter(t.Cases[1].Type, contextNamespace, nil))
 			}
 
 			unionClassName, typeParameters := common.UnionClassName(t)
@@ -454,7 +456,7 @@ func typeConverter(t dsl.Type, contextNamespace string, namedType *dsl.NamedType
 						simplfied = "False"
 					}
 					possibleTypes |= jsonTypes
-					options[i] = fmt.Sprintf("(%s.%s, %s, [%s])", classSyntax, formatting.ToPascalCase(c.Tag), typeConverter(c.Type, contextNamespace, namedType), strings.Join(jsonTypeStrings, ", "))
+					options[i] = fmt.Sprintf("(%s.%s, %s, [%s])", classSyntax, formatting.ToPascalCase(c.Tag), typeConverter(c.Type, contextNamespace, nil), strings.Join(jsonTypeStrings, ", "))
 				}
 			}
 
@@ -486,7 +488,7 @@ func typeConverter(t dsl.Type, contextNamespace string, namedType *dsl.NamedType
 			return fmt.Sprintf("_ndjson.DynamicNDArrayConverter(%s)", getScalarConverter())
 
 		case *dsl.Map:
-			keyConverter := typeConverter(td.KeyType, contextNamespace, namedType)
+			keyConverter := typeConverter(td.KeyType, contextNamespace, nil)
 			valueConverter := typeConverter(t.ToScalar(), contextNamespace, namedType)
 
 			return fmt.Sprintf("_ndjson.MapConverter(%s, %s)", keyConverter, valueConverter)
